@@ -26,7 +26,17 @@ PROPS = {
     "C03": P([TIE], TIE_T, ["S2", "S3", "S4", "S7", "S8", "S9", "S10"]),
     "C04": P([TIE], TIE_T, ["S2", "S3", "S4", "S7", "S8", "S9", "S10"]),
     "C05": P([TIE], TIE_T + BLOOM_T, ["S1-S7", "S9"]),
-    "C06": P([TIE], TIE_T, ["S2", "S4", "S10"]),
+    "C06": P(["SstModel.Props.C06", TIE],
+             ["Sst.C06_reader", "Sst.filterCompat_of_absent", "Sst.specTable_wf", "Sst.reader_history",
+              "Sst.reader_scan", "Sst.reader_seek_current", "Sst.get_ok", "Sst.open_ok",
+              "Sst.simB_seek", "Sst.simB_prev_valid", "Sst.simB_advance", "Sst.isWellFormed_complete",
+              "Sst.parseBlock_wf", "Sst.defaultCmp_lawful", "Sst.reverseCmp_lawful"] + TIE_T,
+             ["S2 codec", "S4 snappy: snap decoder vs the format model (encoder output, reference streams with literal/copy1/2/4, malformed)",
+              "S10 table: files of the harness's reference encoder (free layouts), accepted by the independent Lean decoder, read through Table/TableIterator vs Model.Table"],
+             claimed=True,
+             assume=["the reference encoder's files are used only after Spec.decodeTable accepted them and decoded the intended entries (so they satisfy WFTable's `decodes`; ordering fields hold by construction of the generator)",
+                     "theorem hypotheses: lawful comparator (proved for DefaultCmp and the harness's ReverseCmp), FilterCompat (trivial when the reader's policy name is absent from the metaindex; for a bloom block written by the same policy it is C09), fault-free source, image < 2^64 bytes",
+                     "snap::raw::Decoder is modelled by the format-level decoder Model.Snappy (S4)"]),
     "C07": P(["SstModel.Props.C07", TIE],
              ["Sst.C07_nothing_unverified", "Sst.C07_crc_burst", "Sst.C07_altered_block_rejected",
               "Sst.C07_altered_checksum_rejected", "Sst.C07_mask_roundtrip"] + TIE_T,
